@@ -37,7 +37,7 @@ func (e *Entry) String() string {
 	}
 	switch e.Kind {
 	case "file":
-		return fmt.Sprintf("file(%d bytes, %s, mode %04o)", len(e.Data), e.sum(), e.Mode.Perm())
+		return fmt.Sprintf("file(%d bytes, mode %04o)", len(e.Data), e.Mode.Perm())
 	case "symlink":
 		return "symlink(" + e.Link + ")"
 	}
@@ -243,9 +243,6 @@ func evaluate(before, after map[string]*Entry, ex *Expect, sideOutputs []string)
 		}
 		v.Problems = append(v.Problems, Problem{"dest-old-or-new", bad,
 			fmt.Sprintf("destination %s: before=%s after=%s, expected new=%s", filepath.Base(dest), ob, oa, describeNew(ex))})
-	}
-	if isNew && !isOld && ex.NewKind == "file" && oa != nil && oa.Mode.Perm()&0o111 == 0 && false {
-		v.ModeNote = ""
 	}
 
 	// --- everything else
